@@ -405,7 +405,7 @@ func genBatch(t *rapid.T) batchCase {
 	return c
 }
 
-var chkBatch = harness.Define("batching", genBatch, runBatch)
+var chkBatch = harness.Define("batching", genBatch, runBatch).Repeated(2)
 
 func TestRandom(t *testing.T) {
 	chkBatch.Rapid(t, harness.Pick(6000, 500000))
